@@ -207,12 +207,13 @@ func WorkerMain(id, tier string, seed int64, deadlineUnix int64) {
 }
 
 var currentExec struct {
-	mu      sync.Mutex
-	start   time.Time
-	desc    string
-	unit    string
-	idx     int
-	hangSig string
+	mu       sync.Mutex
+	start    time.Time
+	desc     string
+	unit     string
+	idx      int
+	hangSig  string
+	deadline time.Time // of the whole run: a unit still busy long after it is stuck in the code under test (units poll the deadline between executions)
 }
 
 // ExecBegin/ExecEnd bracket one execution of the code under test for the hang watchdog.
@@ -230,6 +231,9 @@ func ExecEnd() {
 
 const HangLimit = 90 * time.Second
 
+// UnitOverrunLimit: how long after the deadline of the whole run a unit may still be busy before it counts as hanging
+const UnitOverrunLimit = 150 * time.Second
+
 var watchdogOnce sync.Once
 
 func startWatchdog() {
@@ -238,11 +242,17 @@ func startWatchdog() {
 			for {
 				time.Sleep(2 * time.Second)
 				currentExec.mu.Lock()
-				st, desc, unit, idx := currentExec.start, currentExec.desc, currentExec.unit, currentExec.idx
+				st, desc, unit, idx, dl := currentExec.start, currentExec.desc, currentExec.unit, currentExec.idx, currentExec.deadline
 				currentExec.mu.Unlock()
 				var ms runtime.MemStats
 				runtime.ReadMemStats(&ms)
 				hang := !st.IsZero() && time.Since(st) > HangLimit
+				if !hang && !dl.IsZero() && unit != "" && time.Since(dl) > UnitOverrunLimit {
+					hang = true
+					if desc == "" || st.IsZero() {
+						desc = "the unit was still busy " + UnitOverrunLimit.String() + " after the deadline of the run (no execution of its own was bracketed)"
+					}
+				}
 				mem := ms.HeapAlloc > 6<<30
 				if hang || mem {
 					what := "hang"
@@ -269,7 +279,7 @@ func RunUnit(u Unit, idx int, tier string, seed int64, deadline time.Time) (res 
 	res = &UnitResult{Unit: u.Name, Index: idx, Complete: true}
 	c := &Ctx{Tier: tier, Seed: seed, Deadline: deadline, R: res, outcomes: map[uint64]struct{}{}, nontriv: map[uint64]struct{}{}}
 	currentExec.mu.Lock()
-	currentExec.unit, currentExec.idx = u.Name, idx
+	currentExec.unit, currentExec.idx, currentExec.deadline = u.Name, idx, deadline
 	currentExec.mu.Unlock()
 	start := time.Now()
 	func() {
@@ -284,6 +294,9 @@ func RunUnit(u Unit, idx int, tier string, seed int64, deadline time.Time) (res 
 		u.Run(c)
 	}()
 	ExecEnd()
+	currentExec.mu.Lock()
+	currentExec.unit, currentExec.deadline = "", time.Time{} // an idle worker is not a hanging unit
+	currentExec.mu.Unlock()
 	res.Distinct = int64(len(c.outcomes))
 	res.Nontrivial = int64(len(c.nontriv))
 	res.WallS = time.Since(start).Seconds()
